@@ -310,6 +310,28 @@ def is_counter(e):
     return True
 
 
+def _counted_by_helper(fx, e):
+    """e is the result of a crate-local function whose return value is a loop counter advanced by <= 64 per iteration"""
+    e = strip(e)
+    if not (isinstance(e, tuple) and e[0] == 'call' and e[1] in fx.fns):
+        return False
+    g = fx.fns[e[1]]
+    if g.local_ty(0) not in ('usize', 'u32', 'u64'):
+        return False
+    r = strip(g.expr_of_local(0))
+    if not is_counter(r):
+        return False
+    for x in r[1]:
+        x = strip(x)
+        if isinstance(x, tuple) and x[0] == 'bin':
+            inc = x[3] if isinstance(strip(x[2]), tuple) and strip(x[2])[0] == 'cycle' else x[2]
+            if x[1].startswith('Sub') or upper_by_type(g, inc) > 64:
+                return False
+        elif not (isinstance(x, tuple) and x[0] == 'const'):
+            return False
+    return True
+
+
 def def_facts(f, z, x, k):
     tag = x[0]
     if tag == 'bin':
@@ -683,6 +705,8 @@ def auto_discharge(fx, f, s, tainted_params):
                     return None
                 if op == 'Add' and (is_counter(a) and ub_ != INF and ub_ <= 64 or is_counter(b) and ua != INF and ua <= 64):
                     return 'D-LEN', 'loop counter advanced by a small constant once per consumed element'
+                if op == 'Add' and (is_counter(a) and _counted_by_helper(fx, b) or is_counter(b) and _counted_by_helper(fx, a)):
+                    return 'D-LEN', 'position advanced by what a helper counted (itself a sum of small per-element steps over data held in memory)'
                 if ta == 'usize' or ta == 'u128' or ta == 'u64':
                     if op == 'Add' and length_like(f, a) and length_like(f, b):
                         return 'D-LEN', 'sum of buffer lengths / positions (< 2^56 each)'
